@@ -206,6 +206,19 @@ func (s *initialCryptoStream) Write(p []byte) (int, error) {
 			// cut somewhere (16 bytes), most likely in the ECH extension value
 			s.cuts[1].end = min(start+16, s.end)
 		}
+		// A cut that contains no bytes (an empty host name, an ECH extension type at the very end of the
+		// data) must not be scheduled: it could never be sent, and the stream would claim to have data forever.
+		for i, c := range s.cuts {
+			if c.start != protocol.InvalidByteCount && c.end <= c.start {
+				s.cuts[i] = clientHelloCut{start: protocol.InvalidByteCount, end: protocol.InvalidByteCount}
+			}
+		}
+		if s.cuts[0].start == protocol.InvalidByteCount && s.cuts[1].start == protocol.InvalidByteCount {
+			// nothing left to scramble
+			s.end = protocol.InvalidByteCount
+			s.scramble = false
+			return len(p), nil
+		}
 		slices.SortFunc(s.cuts[:], func(a, b clientHelloCut) int {
 			if a.start == protocol.InvalidByteCount {
 				return 1
